@@ -79,6 +79,10 @@ def shutdownKey (tok : String) : Nat :=
   else if who = "req" ∨ who = "srv" then 2 ^ 20 + num (p.getLast?.getD "")
   else 2 ^ 30
 
+def advKey (tok : String) : Nat :=
+  let p := tok.splitOn ":"
+  ((p.getD 1 "").toNat?.getD 0) * 2 ^ 31 + shutdownKey tok
+
 def insertBy (k : String → Nat) (x : String) : List String → List String
   | [] => [x]
   | y :: rest => if k y ≤ k x then y :: insertBy k x rest else x :: y :: rest
@@ -95,18 +99,21 @@ def parseOpts (f : List String) : Opts :=
       cookie := ck = "1", thr := if thr = "-" then 1024 else thr.toNat!, hdr := rest.head? = some "hdr" }
   | _ => {}
 
+/-- everything but EIO=4 is revision 3 (`Handshake`, `transport.Construct`) -/
+def protoOf (tok : String) : Nat := if tok = "4" then 4 else 3
+
 /-- one line of the protocol as an operation of the model -/
 def parseOp (toks : List String) : Option Op :=
   match toks with
-  | ["hs", "polling", eio, b64, j] => some (.hsPolling eio.toNat! (b64 = "1") (if j = "-" then none else some (unhex j)))
-  | ["hs", "websocket", eio, b64, _] => some (.hsWebsocket eio.toNat! (b64 = "1"))
+  | ["hs", "polling", eio, b64, j] => some (.hsPolling (protoOf eio) (b64 = "1") (if j = "-" then none else some (unhex j)))
+  | ["hs", "websocket", eio, b64, _] => some (.hsWebsocket (protoOf eio) (b64 = "1"))
   | ["poll", s] => some (.poll (sidOf s) [])
   | ["poll", s, ae] => some (.poll (sidOf s) (if ae = "-" ∨ ae = "initial" then [] else unhex ae))
   | ["post", s, k, d, hex] => some (.post (sidOf s) (k = "b") (d = "1") (unhex hex) false)
   | ["postj", s, hex] => some (.post (sidOf s) false true ([100, 61] ++ queryEscape (jsonpClientEscape (unhex hex))) true)
   | ["abort", r] => some (.abort r.toNat!)
   | ["ws", s, eio, b64] =>
-    if s = "-" then some (.hsWebsocket eio.toNat! (b64 = "1")) else some (.wsCandidate (sidOf s) eio.toNat! (b64 = "1"))
+    if s = "-" then some (.hsWebsocket (protoOf eio) (b64 = "1")) else some (.wsCandidate (sidOf s) (protoOf eio) (b64 = "1"))
   | ["frame", c, k, hex] => some (.frame c.toNat! (msgOf k hex))
   | ["drop", c] => some (.drop c.toNat!)
   | "send" :: s :: k :: hex :: cmp :: cb :: rest =>
@@ -130,7 +137,8 @@ def sesStep (st : SesState) (noSettle : Bool) (toks : List String) : SesState ×
     if w.fault.isSome then ({ st with w := w }, "fault:" ++ w.fault.getD "") else
     if noSettle then ({ st with w := w }, "-") else
     let w := step w .settle
-    let w := if toks = ["shutdown"] then { w with evs := stableSortBy shutdownKey w.evs } else w
+    let w := if toks = ["shutdown"] then { w with evs := stableSortBy shutdownKey w.evs }
+      else if toks.head? = some "adv" then { w with evs := stableSortBy advKey w.evs } else w
     ({ st with w := step w .observe }, reportLine w)
 
 end Driver
